@@ -6,6 +6,7 @@ package main
 import (
 	"crypto/x509"
 	"crypto/x509/pkix"
+	"encoding/asn1"
 	"fmt"
 	"strconv"
 	"strings"
@@ -191,4 +192,12 @@ func (in *interner) signer(s *cppki.SignedTRC, si protocol.SignerInfo,
 		oks = strings.Join(p, "+")
 	}
 	return fmt.Sprintf("%d:%d:%d:%d:%s", kind, iss, ser, ski, oks)
+}
+
+// sidISN decodes a version-1 signer identifier (same decoding as the unexported
+// SignerInfo.issuerAndSerialNumberSID).
+func sidISN(si protocol.SignerInfo) (protocol.IssuerAndSerialNumber, error) {
+	var isn protocol.IssuerAndSerialNumber
+	_, err := asn1.Unmarshal(si.SID.FullBytes, &isn)
+	return isn, err
 }
